@@ -39,6 +39,7 @@ from cnfgen.clitools.cmdline import paginate_or_redirect_stdout
 from cnfgen.clitools.cmdline import setup_SIGINT
 from cnfgen.clitools.cmdline import CLIParser, CLIError, CLIHelpFormatter
 from cnfgen.clitools.cmdline import SeedAction
+from cnfgen.clitools.cmdline import early_output_format
 
 from cnfgen.clitools.cmdline import get_formula_helpers
 from cnfgen.clitools.cmdline import get_transformation_helpers
@@ -396,7 +397,10 @@ def cli(argv=None, mode='output'):
 
     # Be lenient on non string arguments
     argv = [str(x) for x in argv]
-    with msg_prefix('* '):
+    # errors met while parsing are shielded by the comment marker of
+    # the format requested by the leading options, if any
+    early_prefix = {'dimacs': '* ', 'latex': '% ', 'opb': '* '}
+    with msg_prefix(early_prefix[early_output_format(argv, 'opb')]):
         args = parse_command_line(argv, parser)
 
     #  Determine output format
